@@ -68,7 +68,7 @@ func checkC12(c *Ctx) {
 	c.Explain = "C12 decided on the structure every playback relies on: the merge of the per-track play lists uses a key that is only the absolute time, so it must be a stable sort (file order among equal times); only messages that pass the playability test are queued, each once, and the test rejects every FF-leading message and accepts every channel message (abstract interpretation over all 256 first bytes); port selection is track's port, else port -1, else skip; every Send is preceded in the same call by Sleep(scheduled - last) and the schedule is absTime in microseconds (abstract interpretation of the play step); the track iterator calls the callback in track order then event order. Not decided: wall-clock instants, merge order across tracks at equal time."
 	c.Trusted = []string{"go/ssa", "sort.Stable keeps equal keys in input order", "time.Sleep(d) sleeps at least d", "E-abs"}
 	c.Rule("C12.1", "stable merge: the play list is sorted by a key that is only the scheduled time and is the concatenation of per-track runs, hence the sort must be sort.Stable / sort.SliceStable", 1)
-	c.Rule("C12.2", "only playable, each once: the append to the play list is dominated by the playability test and is not in a loop of the callback; the test rejects FF-leading messages and accepts channel messages; the send loop calls the play step once per element; the play step calls Send exactly once", 4)
+	c.Rule("C12.2", "only playable, each once: the append to the play list is dominated by the playability test and is not in a loop of the callback; the test rejects FF-leading messages and accepts channel messages; the send loop calls the play step once per element; the play step calls Send exactly once", 3)
 	c.Rule("C12.3", "port mapping: port of the track if mapped, else port -1 if mapped, else the event is skipped", 3)
 	c.Rule("C12.4", "never early: Send is preceded by Sleep(1us*absTime - last) in the same call and the step returns 1us*absTime", 1)
 	c.Rule("C12.5", "file order in: the track iterator invokes the callback inside nested range loops over tracks then events", 1)
@@ -109,106 +109,28 @@ func checkC12(c *Ctx) {
 			c.Check(q == "sort.Stable", "C12.1", key, p.Pos(sc.Pos()), "Less compares only "+field+"; input is a concatenation of per-track runs; sort.Stable keeps file order among equal times", "Less compares only "+field+" and the input is a concatenation of per-track runs, but "+q+" is not stable: events of one track sharing a tick can leave out of file order")
 		}
 	}
-	// ---- C12.2 append guarded by playability, once per callback
+	// ---- C12.2 / C12.3: the collection callback, interpreted on concrete port maps
 	var cb *ssa.Function
-	for _, af := range multi.AnonFuncs {
-		if af.Signature.Params().Len() == 1 && namedTypeName(af.Signature.Params().At(0).Type()) == "TrackEvent" {
-			cb = af
+	for _, call := range calls(multi) {
+		if call.Common().StaticCallee() != do || len(call.Common().Args) < 2 {
+			continue
+		}
+		if mc, ok := call.Common().Args[1].(*ssa.MakeClosure); ok {
+			cb, _ = mc.Fn.(*ssa.Function)
+		}
+	}
+	if cb == nil {
+		for _, af := range multi.AnonFuncs {
+			if af.Signature.Params().Len() == 1 && namedTypeName(af.Signature.Params().At(0).Type()) == "TrackEvent" {
+				cb = af
+			}
 		}
 	}
 	if cb == nil {
 		c.Unk("C12.2", "collection callback of MultiPlay", "-", "not found")
 	} else {
 		c.Fn(FuncName(cb))
-		var isPlayable ssa.CallInstruction
-		for _, call := range calls(cb) {
-			if f := call.Common().StaticCallee(); f != nil && f.Name() == "IsPlayable" {
-				isPlayable = call
-			}
-		}
-		var appendCalls []ssa.CallInstruction
-		for _, call := range calls(cb) {
-			if bi, ok := call.Common().Value.(*ssa.Builtin); ok && bi.Name() == "append" {
-				appendCalls = append(appendCalls, call)
-			}
-		}
-		okG := isPlayable != nil && len(appendCalls) == 1
-		why := fmt.Sprintf("playability test found: %v; appends to the play list: %d (must be 1)", isPlayable != nil, len(appendCalls))
-		if okG {
-			okG = false
-			why = "the append to the play list is not dominated by the success edge of the playability test: meta events could be queued"
-			for _, u := range liveRefs(isPlayable.Value()) {
-				if iff, ok := u.(*ssa.If); ok {
-					te, _ := ifEdges(iff)
-					if edgeDominates(cb, te, appendCalls[0].Block()) || te.to == appendCalls[0].Block() {
-						okG = true
-					}
-				}
-			}
-			for _, l := range naturalLoops(cb) {
-				if l.Body[appendCalls[0].Block()] {
-					okG = false
-					why = "the append is inside a loop: an event could be queued more than once"
-				}
-			}
-		}
-		c.Check(okG, "C12.2", "queue only playable events, once", p.Pos(cb.Pos()), "single append, dominated by IsPlayable() == true, not in a loop", why)
-		// ---- C12.3 port mapping
-		var lookups []*ssa.Lookup
-		for _, b := range cb.Blocks {
-			for _, in := range b.Instrs {
-				if l, ok := in.(*ssa.Lookup); ok && l.CommaOk {
-					if _, isMap := l.X.Type().Underlying().(*types.Map); isMap {
-						lookups = append(lookups, l)
-					}
-				}
-			}
-		}
-		var byTrack, byDefault *ssa.Lookup
-		for _, l := range lookups {
-			if k, ok := constInt(l.Index); ok && k == -1 {
-				byDefault = l
-			} else if n := loadedFieldName(l.Index); n == "TrackNo" {
-				byTrack = l
-			}
-		}
-		c.Check(byTrack != nil, "C12.3", "lookup by the event's track number", p.Pos(cb.Pos()), "port map consulted with the track number", "the port map is not consulted with the event's track number")
-		hasEdge := func(l *ssa.Lookup, want bool) (edge, bool) {
-			for _, u := range liveRefs(l) {
-				if ex, ok := u.(*ssa.Extract); ok && ex.Index == 1 {
-					for _, uu := range liveRefs(ex) {
-						if iff, ok := uu.(*ssa.If); ok {
-							te, fe := ifEdges(iff)
-							if want {
-								return te, true
-							}
-							return fe, true
-						}
-					}
-				}
-			}
-			return edge{}, false
-		}
-		okD := false
-		whyD := "no fallback lookup with key -1"
-		if byTrack != nil && byDefault != nil {
-			if fe, ok := hasEdge(byTrack, false); ok {
-				okD = edgeDominates(cb, fe, byDefault.Block()) || fe.to == byDefault.Block()
-				whyD = "the -1 fallback is consulted even when the track has a port of its own (or not only then)"
-			}
-		}
-		c.Check(okD, "C12.3", "fallback to port -1 only when the track is unmapped", p.Pos(cb.Pos()), "lookup with key -1 is dominated by the not-found edge of the track lookup", whyD)
-		okS := false
-		whyS := "cannot find the skip path"
-		if byDefault != nil && len(appendCalls) == 1 {
-			if fe, ok := hasEdge(byDefault, false); ok {
-				// from the neither-found edge the append must be unreachable
-				reach := blockReach(fe.to, nil, nil)
-				okS = !reach[appendCalls[0].Block()]
-				whyS = "an event without any mapped port is still queued"
-			}
-		}
-		c.Check(okS, "C12.3", "skip when neither the track nor -1 is mapped", p.Pos(cb.Pos()), "the not-found edge of the fallback lookup cannot reach the append", whyS)
+		collectionSimulation(c, cb)
 	}
 	// playability table by abstract interpretation
 	if ip := func() *ssa.Function {
@@ -407,4 +329,158 @@ func checkC12(c *Ctx) {
 		c.Check(ok, "C12.5", "iterator visits tracks then events in file order", p.Pos(do.Pos()), "callback invoked in nested range loops, no sorting", why)
 	}
 	_ = playerT
+}
+
+// collectionSimulation (C12.2 / C12.3): the callback that MultiPlay hands to the track iterator is interpreted on one
+// event of track 2 with concrete port maps. A channel message is queued exactly once, with the port of its track if
+// the map has one, else with the port mapped to -1, else not at all; a meta event is never queued. The queued record
+// carries the event's bytes and its time.
+func collectionSimulation(c *Ctx, cb *ssa.Function) {
+	p := c.P
+	teT := cb.Signature.Params().At(0).Type()
+	outI := p.namedType("drivers", "Out")
+	type cell struct {
+		name   string
+		keys   []int64
+		meta   bool
+		want   int // index into keys of the expected port, -1 = not queued
+		rule   string
+		okText string
+	}
+	cells := []cell{
+		{"track mapped, default mapped", []int64{2, -1}, false, 0, "C12.3", "the track's own port"},
+		{"only the default (-1) mapped", []int64{-1}, false, 0, "C12.3", "the default port"},
+		{"another track mapped, no default", []int64{5}, false, -1, "C12.3", "skipped"},
+		{"meta event, track mapped", []int64{2, -1}, true, -1, "C12.2", "never queued"},
+		{"channel message, track mapped", []int64{2}, false, 0, "C12.2", "queued exactly once"},
+	}
+	for _, cl := range cells {
+		ex := NewExec(p)
+		st := ex.NewState()
+		var ports []Val
+		for range cl.keys {
+			id := ex.newObj(st, &TopV{}, nil)
+			ports = append(ports, &IfaceV{Dyn: types.NewPointer(outI), V: &PtrV{Obj: id}})
+		}
+		k8 := func(v int64) Val { return mkConst(v, 8, false) }
+		var msg *SliceV
+		if cl.meta {
+			msg = ex.mkBytes(st, "m", []Val{k8(0xFF), k8(0x51), k8(3), ex.byteSym("t0"), ex.byteSym("t1"), ex.byteSym("t2")}, false, 0)
+		} else {
+			msg = ex.mkBytes(st, "m", []Val{k8(0x92), dataTok(ex, st, "k"), dataTok(ex, st, "v")}, false, 0)
+		}
+		te := ex.zeroOf(teT).(*StructV)
+		when := mkSym(ex.syms.Get("when", 64, true))
+		te.Fields[fieldIndex(te.T, "TrackNo")] = mkConst(2, 64, true)
+		te.Fields[fieldIndex(te.T, "AbsMicroSeconds")] = when
+		if evs, ok := te.Fields[fieldIndex(te.T, "Event")].(*StructV); ok {
+			evs.Fields[fieldIndex(evs.T, "Message")] = msg
+		}
+		// captured variables by type: the port map, the play list (pointer to a slice of records), the rest unknown
+		var binds []Val
+		var listCell *PtrV
+		okB := true
+		for _, fv := range cb.FreeVars {
+			et := fv.Type()
+			isPtr := false
+			if pt, ok := et.(*types.Pointer); ok {
+				et, isPtr = pt.Elem(), true
+			}
+			var v Val
+			switch u := et.Underlying().(type) {
+			case *types.Map:
+				v = &MapV{Const: true, Keys: cl.keys, Vals: ports, ElemT: u.Elem()}
+			case *types.Slice:
+				if _, isS := u.Elem().Underlying().(*types.Struct); isS {
+					v = &SliceV{Nil: true, Off: mkConst(0, 64, true), Len: mkConst(0, 64, true), Cap: mkConst(0, 64, true)}
+				} else {
+					v = ex.topArg(st, et, fv.Name())
+				}
+			default:
+				v = ex.topArg(st, et, fv.Name())
+			}
+			if isPtr {
+				id := ex.newObj(st, v, et)
+				pv := &PtrV{Obj: id}
+				if _, isSl := v.(*SliceV); isSl {
+					listCell = pv
+				}
+				binds = append(binds, pv)
+			} else {
+				binds = append(binds, v)
+			}
+		}
+		if listCell == nil {
+			okB = false
+		}
+		key := "collection callback: " + cl.name
+		if !okB {
+			c.Unk(cl.rule, key, p.Pos(cb.Pos()), "the callback does not capture a play list (pointer to a slice of records)")
+			continue
+		}
+		fr := &Frame{fn: cb, regs: map[ssa.Value]Val{}, visits: map[*ssa.BasicBlock]int{}, widened: map[*ssa.BasicBlock]bool{}, phiHist: map[*ssa.Phi]Val{}, kept: map[*ssa.Phi]keptInv{}}
+		res := ex.callValue(fr, st, &FuncV{Fn: cb, Bindings: binds}, []Val{te}, nil, nil)
+		ok, why := len(res) > 0, ""
+		for _, r := range res {
+			if r.panic {
+				ok, why = false, "panic: "+r.msg
+				continue
+			}
+			if pe := problemEvents(r.st.Events); len(pe) > 0 {
+				ok, why = false, fmtEvents(pe)
+				continue
+			}
+			lst, _ := r.st.heap[listCell.Obj].(*SliceV)
+			recs, okR := ex.sliceElems(r.st, lst)
+			if !okR {
+				ok, why = false, "play list not tracked"
+				continue
+			}
+			wantN := 1
+			if cl.want < 0 {
+				wantN = 0
+			}
+			if len(recs) != wantN {
+				ok, why = false, fmt.Sprintf("%d record(s) queued, expected %d", len(recs), wantN)
+				continue
+			}
+			if wantN == 0 {
+				continue
+			}
+			rec, _ := recs[0].(*StructV)
+			if rec == nil {
+				ok, why = false, "queued record not tracked"
+				continue
+			}
+			var gotOut *IfaceV
+			var gotData *SliceV
+			var gotTime *IntV
+			if i := fieldIndex(rec.T, "out"); i >= 0 {
+				gotOut, _ = rec.Fields[i].(*IfaceV)
+			}
+			if i := fieldIndex(rec.T, "data"); i >= 0 {
+				gotData, _ = rec.Fields[i].(*SliceV)
+			}
+			if i := fieldIndex(rec.T, "absTime"); i >= 0 {
+				gotTime, _ = rec.Fields[i].(*IntV)
+			}
+			wp := ports[cl.want].(*IfaceV).V.(*PtrV)
+			if gp, _ := func() (*PtrV, bool) {
+				if gotOut == nil || gotOut.Unk || gotOut.Nil {
+					return nil, false
+				}
+				pv, ok := gotOut.V.(*PtrV)
+				return pv, ok
+			}(); gp == nil || gp.Obj != wp.Obj {
+				ok, why = false, "the event is queued for a port other than "+cl.okText
+			}
+			if gotData == nil || gotData.Obj != msg.Obj {
+				ok, why = false, "the queued bytes are not the event's message"
+			}
+			if gotTime == nil || !r.st.sameInt(gotTime, when) {
+				ok, why = false, "the queued time is not the event's absolute time"
+			}
+		}
+		c.Check(ok, cl.rule, key, p.Pos(cb.Pos()), cl.okText, why)
+	}
 }
